@@ -190,6 +190,31 @@ func (s *dsServer) RoundTrip(req *http.Request) (*http.Response, error) {
 	return resp, nil
 }
 
+// storeHang reports whether a run ended because a task was blocked for good inside a call into one of the
+// bundled, un-instrumented stores (SQLite through database/sql, durable-streams through its HTTP client): the
+// simulator waited a minute of simulated time for it, nothing else was runnable, and the call did not return.
+// That is the store's doing - "the call never returns" - not a shortcoming of the harness.
+func storeHang(rep *simrt.Report) (string, bool) {
+	if rep == nil || rep.RealBlock == "" {
+		return "", false
+	}
+	for _, g := range strings.Split(rep.RealBlock, "\n\n") {
+		if !strings.Contains(g, "simrt.(*Sim).taskMain") {
+			continue
+		}
+		for _, marker := range []string{"github.com/jilio/ebu/stores/sqlite.(*SQLiteStore).", "github.com/jilio/ebu/stores/durablestream.(*Store)."} {
+			if i := strings.Index(g, marker); i >= 0 {
+				line := g[i:]
+				if j := strings.IndexByte(line, '\n'); j >= 0 {
+					line = line[:j]
+				}
+				return line, true
+			}
+		}
+	}
+	return "", false
+}
+
 // openStore opens (or re-opens, for sqlite files and durable-streams servers named by `name`) a store.
 func (e *storeEnv) openStore(cfg StoreCfg, name string) (eventbus.EventStore, error) {
 	switch cfg.Kind {
